@@ -23,19 +23,28 @@ EXTENDS Integers, Sequences, TLC, FiniteSets
 
 CONSTANTS Inputs,      \* set of [toks, incode, open, src] records
           DevP2
-DevP2Intended == [BlockIgnoresEOF |-> FALSE, ObjectNoProgress |-> FALSE, IllegalSteppedOver |-> FALSE]
-DevP2AsCoded  == [BlockIgnoresEOF |-> TRUE, ObjectNoProgress |-> TRUE, IllegalSteppedOver |-> FALSE]   \* the two pinned loops
+DevP2Intended == [BlockIgnoresEOF |-> FALSE, ObjectNoProgress |-> FALSE, IllegalSteppedOver |-> FALSE, OneTokenAhead |-> FALSE]
+DevP2AsCoded  == [BlockIgnoresEOF |-> TRUE, ObjectNoProgress |-> TRUE, IllegalSteppedOver |-> FALSE, OneTokenAhead |-> FALSE]   \* the two pinned loops
+\* OneTokenAhead: after the ")" of @component the pinned parser looked one token ahead: white space that a comment
+\* splits into two tokens (WS WS) hid the slots, and a single white-space token was swallowed when no slot followed
+\* (repaired: the parser looks past every white-space token and consumes them only when a slot follows)
+DevP2OneAhead == [BlockIgnoresEOF |-> FALSE, ObjectNoProgress |-> FALSE, IllegalSteppedOver |-> FALSE, OneTokenAhead |-> TRUE]
 \* IllegalSteppedOver: the name positions of @each / @insert / @slot / @reserve / @use take the token as it is; as
 \* pinned, an illegal token there was never looked at (repaired: the parser remembers the first illegal token the
 \* lexer hands it and reports it when nothing else has been reported)
-DevP2Illegal  == [BlockIgnoresEOF |-> FALSE, ObjectNoProgress |-> FALSE, IllegalSteppedOver |-> TRUE]
+DevP2Illegal  == [BlockIgnoresEOF |-> FALSE, ObjectNoProgress |-> FALSE, IllegalSteppedOver |-> TRUE, OneTokenAhead |-> FALSE]
 
 (* --fair algorithm TwParser
-variables inp \in Inputs, toks = inp.toks, i = 1, errs = <<>>, nilp = FALSE;
+variables inp \in Inputs, toks = inp.toks, i = 1, errs = <<>>, nilp = FALSE,
+          loose = 0,      \* @slot tokens met as statements of their own (outside a component use that owns them)
+          eaten = 0,      \* white-space tokens consumed without a slot following them
+          depth = 0;      \* component uses whose slot bodies are being parsed
 
 define
   Tok(k) == IF k >= 1 /\ k <= Len(toks) THEN toks[k] ELSE "EOF"
   Closers == {"END", "ELSE", "ELSE_IF"}
+  RECURSIVE WsRun(_)
+  WsRun(k) == IF Tok(k) = "WS" THEN 1 + WsRun(k + 1) ELSE 0      \* white-space-only text tokens starting at k
 end define;
 
 macro err(e) begin errs := Append(errs, e); end macro;
@@ -186,11 +195,20 @@ begin
      end if;
  M2: if Tok(i + 1) # "RPAREN" then err("expected )"); return; end if;
  M3: i := i + 1;
- M3a: if Tok(i + 1) = "SLOT" then
-       i := i + 1;
+ M3a: if DevP2.OneTokenAhead then
+       if Tok(i + 1) = "SLOT" then
+         i := i + 1;
+       elsif Tok(i + 1) = "WS" then
+         if Tok(i + 2) = "SLOT" then i := i + 2; else i := i + 1; eaten := eaten + 1; return; end if;
+       else
+         return;
+       end if;
+     elsif Tok(i + 1 + WsRun(i + 1)) = "SLOT" then
+       i := i + 1 + WsRun(i + 1);
      else
        return;
      end if;
+ M3b: depth := depth + 1;
  M4: while Tok(i) = "SLOT" do
        if Tok(i + 1) = "LPAREN" then
          i := i + 2;
@@ -199,9 +217,10 @@ begin
        end if;
  M6:   call parseBlock();
  M7:   i := i + 2;                        \* skip block statement, skip "@end"
- M8:   while Tok(i) = "HTML" do i := i + 1; end while;
+ M8:   while Tok(i) \in {"HTML", "WS"} do i := i + 1; end while;
      end while;
- M9: return;
+ M9: depth := depth - 1;
+     return;
 end procedure;
 
 \* parseEmbeddedCode ("{{", ";" or the "(" of @for already current): assignment or expression statement
@@ -275,6 +294,7 @@ begin
      elsif Tok(i) = "EACH" then call parseEach();
      elsif Tok(i) = "INSERT" then call parseInsert();
      elsif Tok(i) = "COMPONENT" then call parseComponent();
+     elsif Tok(i) = "SLOT" /\ depth = 0 then loose := loose + 1;   \* (inside a use, the body of a default slot starts at its @slot token)
      end if;
  S1: return;
 end procedure;
@@ -294,15 +314,18 @@ begin
 end algorithm; *)
 \* BEGIN TRANSLATION
 CONSTANT defaultInitValue
-VARIABLES pc, inp, toks, i, errs, nilp, stack
+VARIABLES pc, inp, toks, i, errs, nilp, loose, eaten, depth, stack
 
 (* define statement *)
 Tok(k) == IF k >= 1 /\ k <= Len(toks) THEN toks[k] ELSE "EOF"
 Closers == {"END", "ELSE", "ELSE_IF"}
+RECURSIVE WsRun(_)
+WsRun(k) == IF Tok(k) = "WS" THEN 1 + WsRun(k + 1) ELSE 0
 
 VARIABLES closer, kind
 
-vars == << pc, inp, toks, i, errs, nilp, stack, closer, kind >>
+vars == << pc, inp, toks, i, errs, nilp, loose, eaten, depth, stack, closer, 
+           kind >>
 
 Init == (* Global variables *)
         /\ inp \in Inputs
@@ -310,6 +333,9 @@ Init == (* Global variables *)
         /\ i = 1
         /\ errs = <<>>
         /\ nilp = FALSE
+        /\ loose = 0
+        /\ eaten = 0
+        /\ depth = 0
         (* Procedure parseList *)
         /\ closer = defaultInitValue
         (* Procedure parseArgDirective *)
@@ -348,7 +374,7 @@ E0 == /\ pc = "E0"
                                                   /\ stack' = Tail(stack)
                                        /\ UNCHANGED closer
                             /\ i' = i
-      /\ UNCHANGED << inp, toks, nilp, kind >>
+      /\ UNCHANGED << inp, toks, nilp, loose, eaten, depth, kind >>
 
 E1 == /\ pc = "E1"
       /\ IF Tok(i + 1) = "RPAREN"
@@ -359,7 +385,7 @@ E1 == /\ pc = "E1"
                  /\ pc' = Head(stack).pc
                  /\ stack' = Tail(stack)
                  /\ i' = i
-      /\ UNCHANGED << inp, toks, nilp, closer, kind >>
+      /\ UNCHANGED << inp, toks, nilp, loose, eaten, depth, closer, kind >>
 
 E2 == /\ pc = "E2"
       /\ IF Tok(i + 1) = "ADD"
@@ -372,19 +398,21 @@ E2 == /\ pc = "E2"
                             /\ UNCHANGED << errs, stack >>
             ELSE /\ pc' = "E4"
                  /\ UNCHANGED << i, errs, stack >>
-      /\ UNCHANGED << inp, toks, nilp, closer, kind >>
+      /\ UNCHANGED << inp, toks, nilp, loose, eaten, depth, closer, kind >>
 
 E3 == /\ pc = "E3"
       /\ stack' = << [ procedure |->  "parseExpr",
                        pc        |->  "E2" ] >>
                    \o stack
       /\ pc' = "E0"
-      /\ UNCHANGED << inp, toks, i, errs, nilp, closer, kind >>
+      /\ UNCHANGED << inp, toks, i, errs, nilp, loose, eaten, depth, closer, 
+                      kind >>
 
 E4 == /\ pc = "E4"
       /\ pc' = Head(stack).pc
       /\ stack' = Tail(stack)
-      /\ UNCHANGED << inp, toks, i, errs, nilp, closer, kind >>
+      /\ UNCHANGED << inp, toks, i, errs, nilp, loose, eaten, depth, closer, 
+                      kind >>
 
 parseExpr == E0 \/ E1 \/ E2 \/ E3 \/ E4
 
@@ -396,7 +424,7 @@ L0 == /\ pc = "L0"
                  /\ stack' = Tail(stack)
             ELSE /\ pc' = "L1"
                  /\ UNCHANGED << i, stack, closer >>
-      /\ UNCHANGED << inp, toks, errs, nilp, kind >>
+      /\ UNCHANGED << inp, toks, errs, nilp, loose, eaten, depth, kind >>
 
 L1 == /\ pc = "L1"
       /\ i' = i + 1
@@ -404,7 +432,7 @@ L1 == /\ pc = "L1"
                        pc        |->  "L2" ] >>
                    \o stack
       /\ pc' = "E0"
-      /\ UNCHANGED << inp, toks, errs, nilp, closer, kind >>
+      /\ UNCHANGED << inp, toks, errs, nilp, loose, eaten, depth, closer, kind >>
 
 L2 == /\ pc = "L2"
       /\ IF Tok(i + 1) = "COMMA"
@@ -414,7 +442,8 @@ L2 == /\ pc = "L2"
                        ELSE /\ pc' = "L3"
             ELSE /\ pc' = "L4"
                  /\ i' = i
-      /\ UNCHANGED << inp, toks, errs, nilp, stack, closer, kind >>
+      /\ UNCHANGED << inp, toks, errs, nilp, loose, eaten, depth, stack, 
+                      closer, kind >>
 
 L3 == /\ pc = "L3"
       /\ i' = i + 1
@@ -422,7 +451,7 @@ L3 == /\ pc = "L3"
                        pc        |->  "L2" ] >>
                    \o stack
       /\ pc' = "E0"
-      /\ UNCHANGED << inp, toks, errs, nilp, closer, kind >>
+      /\ UNCHANGED << inp, toks, errs, nilp, loose, eaten, depth, closer, kind >>
 
 L4 == /\ pc = "L4"
       /\ IF Tok(i + 1) = closer
@@ -431,13 +460,14 @@ L4 == /\ pc = "L4"
             ELSE /\ errs' = Append(errs, "expected closer")
                  /\ i' = i
       /\ pc' = "L5"
-      /\ UNCHANGED << inp, toks, nilp, stack, closer, kind >>
+      /\ UNCHANGED << inp, toks, nilp, loose, eaten, depth, stack, closer, 
+                      kind >>
 
 L5 == /\ pc = "L5"
       /\ pc' = Head(stack).pc
       /\ closer' = Head(stack).closer
       /\ stack' = Tail(stack)
-      /\ UNCHANGED << inp, toks, i, errs, nilp, kind >>
+      /\ UNCHANGED << inp, toks, i, errs, nilp, loose, eaten, depth, kind >>
 
 parseList == L0 \/ L1 \/ L2 \/ L3 \/ L4 \/ L5
 
@@ -448,7 +478,7 @@ O0 == /\ pc = "O0"
                  /\ stack' = Tail(stack)
             ELSE /\ pc' = "O1"
                  /\ stack' = stack
-      /\ UNCHANGED << inp, toks, errs, nilp, closer, kind >>
+      /\ UNCHANGED << inp, toks, errs, nilp, loose, eaten, depth, closer, kind >>
 
 O1 == /\ pc = "O1"
       /\ IF Tok(i) # "RBRACE"
@@ -459,14 +489,16 @@ O1 == /\ pc = "O1"
                  /\ pc' = "O2"
             ELSE /\ pc' = "O4"
                  /\ i' = i
-      /\ UNCHANGED << inp, toks, errs, nilp, stack, closer, kind >>
+      /\ UNCHANGED << inp, toks, errs, nilp, loose, eaten, depth, stack, 
+                      closer, kind >>
 
 O2 == /\ pc = "O2"
       /\ stack' = << [ procedure |->  "parseExpr",
                        pc        |->  "O3" ] >>
                    \o stack
       /\ pc' = "E0"
-      /\ UNCHANGED << inp, toks, i, errs, nilp, closer, kind >>
+      /\ UNCHANGED << inp, toks, i, errs, nilp, loose, eaten, depth, closer, 
+                      kind >>
 
 O3 == /\ pc = "O3"
       /\ IF Tok(i + 1) = "COMMA"
@@ -488,12 +520,13 @@ O3 == /\ pc = "O3"
                                        /\ i' = i
                             /\ pc' = Head(stack).pc
                             /\ stack' = Tail(stack)
-      /\ UNCHANGED << inp, toks, nilp, closer, kind >>
+      /\ UNCHANGED << inp, toks, nilp, loose, eaten, depth, closer, kind >>
 
 O4 == /\ pc = "O4"
       /\ pc' = Head(stack).pc
       /\ stack' = Tail(stack)
-      /\ UNCHANGED << inp, toks, i, errs, nilp, closer, kind >>
+      /\ UNCHANGED << inp, toks, i, errs, nilp, loose, eaten, depth, closer, 
+                      kind >>
 
 parseObject == O0 \/ O1 \/ O2 \/ O3 \/ O4
 
@@ -504,7 +537,7 @@ B0 == /\ pc = "B0"
                  /\ stack' = Tail(stack)
             ELSE /\ pc' = "B1"
                  /\ UNCHANGED << i, stack >>
-      /\ UNCHANGED << inp, toks, errs, nilp, closer, kind >>
+      /\ UNCHANGED << inp, toks, errs, nilp, loose, eaten, depth, closer, kind >>
 
 B1 == /\ pc = "B1"
       /\ IF Tok(i) # "END" /\ (Tok(i) # "EOF" \/ DevP2.BlockIgnoresEOF)
@@ -514,7 +547,8 @@ B1 == /\ pc = "B1"
                  /\ pc' = "S0"
             ELSE /\ pc' = "B5"
                  /\ stack' = stack
-      /\ UNCHANGED << inp, toks, i, errs, nilp, closer, kind >>
+      /\ UNCHANGED << inp, toks, i, errs, nilp, loose, eaten, depth, closer, 
+                      kind >>
 
 B2 == /\ pc = "B2"
       /\ IF Tok(i) = "ILLEGAL"
@@ -523,18 +557,20 @@ B2 == /\ pc = "B2"
                  /\ stack' = Tail(stack)
             ELSE /\ pc' = "B3"
                  /\ UNCHANGED << errs, stack >>
-      /\ UNCHANGED << inp, toks, i, nilp, closer, kind >>
+      /\ UNCHANGED << inp, toks, i, nilp, loose, eaten, depth, closer, kind >>
 
 B3 == /\ pc = "B3"
       /\ IF Tok(i + 1) \in Closers
             THEN /\ pc' = "B5"
             ELSE /\ pc' = "B4"
-      /\ UNCHANGED << inp, toks, i, errs, nilp, stack, closer, kind >>
+      /\ UNCHANGED << inp, toks, i, errs, nilp, loose, eaten, depth, stack, 
+                      closer, kind >>
 
 B4 == /\ pc = "B4"
       /\ i' = i + 1
       /\ pc' = "B1"
-      /\ UNCHANGED << inp, toks, errs, nilp, stack, closer, kind >>
+      /\ UNCHANGED << inp, toks, errs, nilp, loose, eaten, depth, stack, 
+                      closer, kind >>
 
 B5 == /\ pc = "B5"
       /\ IF Tok(i) = "EOF"
@@ -542,12 +578,14 @@ B5 == /\ pc = "B5"
             ELSE /\ TRUE
                  /\ errs' = errs
       /\ pc' = "B6"
-      /\ UNCHANGED << inp, toks, i, nilp, stack, closer, kind >>
+      /\ UNCHANGED << inp, toks, i, nilp, loose, eaten, depth, stack, closer, 
+                      kind >>
 
 B6 == /\ pc = "B6"
       /\ pc' = Head(stack).pc
       /\ stack' = Tail(stack)
-      /\ UNCHANGED << inp, toks, i, errs, nilp, closer, kind >>
+      /\ UNCHANGED << inp, toks, i, errs, nilp, loose, eaten, depth, closer, 
+                      kind >>
 
 parseBlock == B0 \/ B1 \/ B2 \/ B3 \/ B4 \/ B5 \/ B6
 
@@ -558,7 +596,7 @@ I0 == /\ pc = "I0"
                  /\ stack' = Tail(stack)
             ELSE /\ pc' = "I1"
                  /\ UNCHANGED << errs, stack >>
-      /\ UNCHANGED << inp, toks, i, nilp, closer, kind >>
+      /\ UNCHANGED << inp, toks, i, nilp, loose, eaten, depth, closer, kind >>
 
 I1 == /\ pc = "I1"
       /\ i' = i + 2
@@ -566,7 +604,7 @@ I1 == /\ pc = "I1"
                        pc        |->  "I2" ] >>
                    \o stack
       /\ pc' = "E0"
-      /\ UNCHANGED << inp, toks, errs, nilp, closer, kind >>
+      /\ UNCHANGED << inp, toks, errs, nilp, loose, eaten, depth, closer, kind >>
 
 I2 == /\ pc = "I2"
       /\ IF Tok(i + 1) # "RPAREN"
@@ -575,7 +613,7 @@ I2 == /\ pc = "I2"
                  /\ stack' = Tail(stack)
             ELSE /\ pc' = "I3"
                  /\ UNCHANGED << errs, stack >>
-      /\ UNCHANGED << inp, toks, i, nilp, closer, kind >>
+      /\ UNCHANGED << inp, toks, i, nilp, loose, eaten, depth, closer, kind >>
 
 I3 == /\ pc = "I3"
       /\ i' = i + 2
@@ -583,7 +621,7 @@ I3 == /\ pc = "I3"
                        pc        |->  "I4" ] >>
                    \o stack
       /\ pc' = "B0"
-      /\ UNCHANGED << inp, toks, errs, nilp, closer, kind >>
+      /\ UNCHANGED << inp, toks, errs, nilp, loose, eaten, depth, closer, kind >>
 
 I4 == /\ pc = "I4"
       /\ IF Tok(i + 1) = "ELSE_IF"
@@ -594,7 +632,7 @@ I4 == /\ pc = "I4"
                  /\ pc' = "E0"
             ELSE /\ pc' = "I7"
                  /\ UNCHANGED << i, stack >>
-      /\ UNCHANGED << inp, toks, errs, nilp, closer, kind >>
+      /\ UNCHANGED << inp, toks, errs, nilp, loose, eaten, depth, closer, kind >>
 
 I5 == /\ pc = "I5"
       /\ IF Tok(i + 1) # "RPAREN"
@@ -603,7 +641,7 @@ I5 == /\ pc = "I5"
                  /\ stack' = Tail(stack)
             ELSE /\ pc' = "I6"
                  /\ UNCHANGED << errs, stack >>
-      /\ UNCHANGED << inp, toks, i, nilp, closer, kind >>
+      /\ UNCHANGED << inp, toks, i, nilp, loose, eaten, depth, closer, kind >>
 
 I6 == /\ pc = "I6"
       /\ i' = i + 2
@@ -611,7 +649,7 @@ I6 == /\ pc = "I6"
                        pc        |->  "I4" ] >>
                    \o stack
       /\ pc' = "B0"
-      /\ UNCHANGED << inp, toks, errs, nilp, closer, kind >>
+      /\ UNCHANGED << inp, toks, errs, nilp, loose, eaten, depth, closer, kind >>
 
 I7 == /\ pc = "I7"
       /\ IF Tok(i + 1) = "ELSE"
@@ -622,7 +660,7 @@ I7 == /\ pc = "I7"
                  /\ pc' = "B0"
             ELSE /\ pc' = "I9"
                  /\ UNCHANGED << i, stack >>
-      /\ UNCHANGED << inp, toks, errs, nilp, closer, kind >>
+      /\ UNCHANGED << inp, toks, errs, nilp, loose, eaten, depth, closer, kind >>
 
 I8 == /\ pc = "I8"
       /\ IF Tok(i + 1) = "ELSE_IF"
@@ -631,7 +669,7 @@ I8 == /\ pc = "I8"
                  /\ stack' = Tail(stack)
             ELSE /\ pc' = "I9"
                  /\ UNCHANGED << errs, stack >>
-      /\ UNCHANGED << inp, toks, i, nilp, closer, kind >>
+      /\ UNCHANGED << inp, toks, i, nilp, loose, eaten, depth, closer, kind >>
 
 I9 == /\ pc = "I9"
       /\ IF Tok(i + 1) = "END"
@@ -640,12 +678,14 @@ I9 == /\ pc = "I9"
             ELSE /\ errs' = Append(errs, "expected @end")
                  /\ i' = i
       /\ pc' = "IA"
-      /\ UNCHANGED << inp, toks, nilp, stack, closer, kind >>
+      /\ UNCHANGED << inp, toks, nilp, loose, eaten, depth, stack, closer, 
+                      kind >>
 
 IA == /\ pc = "IA"
       /\ pc' = Head(stack).pc
       /\ stack' = Tail(stack)
-      /\ UNCHANGED << inp, toks, i, errs, nilp, closer, kind >>
+      /\ UNCHANGED << inp, toks, i, errs, nilp, loose, eaten, depth, closer, 
+                      kind >>
 
 parseIf == I0 \/ I1 \/ I2 \/ I3 \/ I4 \/ I5 \/ I6 \/ I7 \/ I8 \/ I9 \/ IA
 
@@ -656,7 +696,7 @@ C0 == /\ pc = "C0"
                  /\ stack' = Tail(stack)
             ELSE /\ pc' = "C1"
                  /\ UNCHANGED << errs, stack >>
-      /\ UNCHANGED << inp, toks, i, nilp, closer, kind >>
+      /\ UNCHANGED << inp, toks, i, nilp, loose, eaten, depth, closer, kind >>
 
 C1 == /\ pc = "C1"
       /\ i' = i + 2
@@ -666,7 +706,7 @@ C1 == /\ pc = "C1"
                  /\ stack' = Tail(stack)
             ELSE /\ pc' = "C2"
                  /\ UNCHANGED << errs, stack >>
-      /\ UNCHANGED << inp, toks, nilp, closer, kind >>
+      /\ UNCHANGED << inp, toks, nilp, loose, eaten, depth, closer, kind >>
 
 C2 == /\ pc = "C2"
       /\ i' = i + 2
@@ -674,7 +714,7 @@ C2 == /\ pc = "C2"
                        pc        |->  "C3" ] >>
                    \o stack
       /\ pc' = "E0"
-      /\ UNCHANGED << inp, toks, errs, nilp, closer, kind >>
+      /\ UNCHANGED << inp, toks, errs, nilp, loose, eaten, depth, closer, kind >>
 
 C3 == /\ pc = "C3"
       /\ IF Tok(i + 1) # "RPAREN"
@@ -683,7 +723,7 @@ C3 == /\ pc = "C3"
                  /\ stack' = Tail(stack)
             ELSE /\ pc' = "C4"
                  /\ UNCHANGED << errs, stack >>
-      /\ UNCHANGED << inp, toks, i, nilp, closer, kind >>
+      /\ UNCHANGED << inp, toks, i, nilp, loose, eaten, depth, closer, kind >>
 
 C4 == /\ pc = "C4"
       /\ i' = i + 2
@@ -691,7 +731,7 @@ C4 == /\ pc = "C4"
                        pc        |->  "C5" ] >>
                    \o stack
       /\ pc' = "B0"
-      /\ UNCHANGED << inp, toks, errs, nilp, closer, kind >>
+      /\ UNCHANGED << inp, toks, errs, nilp, loose, eaten, depth, closer, kind >>
 
 C5 == /\ pc = "C5"
       /\ IF Tok(i + 1) = "ELSE"
@@ -702,7 +742,7 @@ C5 == /\ pc = "C5"
                  /\ pc' = "B0"
             ELSE /\ pc' = "C6"
                  /\ UNCHANGED << i, stack >>
-      /\ UNCHANGED << inp, toks, errs, nilp, closer, kind >>
+      /\ UNCHANGED << inp, toks, errs, nilp, loose, eaten, depth, closer, kind >>
 
 C6 == /\ pc = "C6"
       /\ IF Tok(i + 1) = "END"
@@ -711,12 +751,14 @@ C6 == /\ pc = "C6"
             ELSE /\ errs' = Append(errs, "expected @end")
                  /\ i' = i
       /\ pc' = "C7"
-      /\ UNCHANGED << inp, toks, nilp, stack, closer, kind >>
+      /\ UNCHANGED << inp, toks, nilp, loose, eaten, depth, stack, closer, 
+                      kind >>
 
 C7 == /\ pc = "C7"
       /\ pc' = Head(stack).pc
       /\ stack' = Tail(stack)
-      /\ UNCHANGED << inp, toks, i, errs, nilp, closer, kind >>
+      /\ UNCHANGED << inp, toks, i, errs, nilp, loose, eaten, depth, closer, 
+                      kind >>
 
 parseEach == C0 \/ C1 \/ C2 \/ C3 \/ C4 \/ C5 \/ C6 \/ C7
 
@@ -727,12 +769,13 @@ N0 == /\ pc = "N0"
                  /\ stack' = Tail(stack)
             ELSE /\ pc' = "N1"
                  /\ UNCHANGED << errs, stack >>
-      /\ UNCHANGED << inp, toks, i, nilp, closer, kind >>
+      /\ UNCHANGED << inp, toks, i, nilp, loose, eaten, depth, closer, kind >>
 
 N1 == /\ pc = "N1"
       /\ i' = i + 2
       /\ pc' = "N1a"
-      /\ UNCHANGED << inp, toks, errs, nilp, stack, closer, kind >>
+      /\ UNCHANGED << inp, toks, errs, nilp, loose, eaten, depth, stack, 
+                      closer, kind >>
 
 N1a == /\ pc = "N1a"
        /\ IF Tok(i + 1) = "COMMA"
@@ -743,7 +786,8 @@ N1a == /\ pc = "N1a"
                   /\ pc' = "E0"
              ELSE /\ pc' = "N2"
                   /\ UNCHANGED << i, stack >>
-       /\ UNCHANGED << inp, toks, errs, nilp, closer, kind >>
+       /\ UNCHANGED << inp, toks, errs, nilp, loose, eaten, depth, closer, 
+                       kind >>
 
 N2 == /\ pc = "N2"
       /\ IF Tok(i + 1) # "RPAREN"
@@ -752,7 +796,7 @@ N2 == /\ pc = "N2"
                  /\ stack' = Tail(stack)
             ELSE /\ pc' = "N3"
                  /\ UNCHANGED << errs, stack >>
-      /\ UNCHANGED << inp, toks, i, nilp, closer, kind >>
+      /\ UNCHANGED << inp, toks, i, nilp, loose, eaten, depth, closer, kind >>
 
 N3 == /\ pc = "N3"
       /\ i' = i + 2
@@ -760,12 +804,13 @@ N3 == /\ pc = "N3"
                        pc        |->  "N4" ] >>
                    \o stack
       /\ pc' = "B0"
-      /\ UNCHANGED << inp, toks, errs, nilp, closer, kind >>
+      /\ UNCHANGED << inp, toks, errs, nilp, loose, eaten, depth, closer, kind >>
 
 N4 == /\ pc = "N4"
       /\ pc' = Head(stack).pc
       /\ stack' = Tail(stack)
-      /\ UNCHANGED << inp, toks, i, errs, nilp, closer, kind >>
+      /\ UNCHANGED << inp, toks, i, errs, nilp, loose, eaten, depth, closer, 
+                      kind >>
 
 parseInsert == N0 \/ N1 \/ N1a \/ N2 \/ N3 \/ N4
 
@@ -776,12 +821,13 @@ M0 == /\ pc = "M0"
                  /\ stack' = Tail(stack)
             ELSE /\ pc' = "M1"
                  /\ UNCHANGED << errs, stack >>
-      /\ UNCHANGED << inp, toks, i, nilp, closer, kind >>
+      /\ UNCHANGED << inp, toks, i, nilp, loose, eaten, depth, closer, kind >>
 
 M1 == /\ pc = "M1"
       /\ i' = i + 2
       /\ pc' = "M1a"
-      /\ UNCHANGED << inp, toks, errs, nilp, stack, closer, kind >>
+      /\ UNCHANGED << inp, toks, errs, nilp, loose, eaten, depth, stack, 
+                      closer, kind >>
 
 M1a == /\ pc = "M1a"
        /\ IF Tok(i + 1) = "COMMA"
@@ -792,7 +838,8 @@ M1a == /\ pc = "M1a"
                   /\ pc' = "E0"
              ELSE /\ pc' = "M2"
                   /\ UNCHANGED << i, stack >>
-       /\ UNCHANGED << inp, toks, errs, nilp, closer, kind >>
+       /\ UNCHANGED << inp, toks, errs, nilp, loose, eaten, depth, closer, 
+                       kind >>
 
 M2 == /\ pc = "M2"
       /\ IF Tok(i + 1) # "RPAREN"
@@ -801,22 +848,48 @@ M2 == /\ pc = "M2"
                  /\ stack' = Tail(stack)
             ELSE /\ pc' = "M3"
                  /\ UNCHANGED << errs, stack >>
-      /\ UNCHANGED << inp, toks, i, nilp, closer, kind >>
+      /\ UNCHANGED << inp, toks, i, nilp, loose, eaten, depth, closer, kind >>
 
 M3 == /\ pc = "M3"
       /\ i' = i + 1
       /\ pc' = "M3a"
-      /\ UNCHANGED << inp, toks, errs, nilp, stack, closer, kind >>
+      /\ UNCHANGED << inp, toks, errs, nilp, loose, eaten, depth, stack, 
+                      closer, kind >>
 
 M3a == /\ pc = "M3a"
-       /\ IF Tok(i + 1) = "SLOT"
-             THEN /\ i' = i + 1
-                  /\ pc' = "M4"
-                  /\ stack' = stack
-             ELSE /\ pc' = Head(stack).pc
-                  /\ stack' = Tail(stack)
-                  /\ i' = i
-       /\ UNCHANGED << inp, toks, errs, nilp, closer, kind >>
+       /\ IF DevP2.OneTokenAhead
+             THEN /\ IF Tok(i + 1) = "SLOT"
+                        THEN /\ i' = i + 1
+                             /\ pc' = "M3b"
+                             /\ UNCHANGED << eaten, stack >>
+                        ELSE /\ IF Tok(i + 1) = "WS"
+                                   THEN /\ IF Tok(i + 2) = "SLOT"
+                                              THEN /\ i' = i + 2
+                                                   /\ pc' = "M3b"
+                                                   /\ UNCHANGED << eaten, 
+                                                                   stack >>
+                                              ELSE /\ i' = i + 1
+                                                   /\ eaten' = eaten + 1
+                                                   /\ pc' = Head(stack).pc
+                                                   /\ stack' = Tail(stack)
+                                   ELSE /\ pc' = Head(stack).pc
+                                        /\ stack' = Tail(stack)
+                                        /\ UNCHANGED << i, eaten >>
+             ELSE /\ IF Tok(i + 1 + WsRun(i + 1)) = "SLOT"
+                        THEN /\ i' = i + 1 + WsRun(i + 1)
+                             /\ pc' = "M3b"
+                             /\ stack' = stack
+                        ELSE /\ pc' = Head(stack).pc
+                             /\ stack' = Tail(stack)
+                             /\ i' = i
+                  /\ eaten' = eaten
+       /\ UNCHANGED << inp, toks, errs, nilp, loose, depth, closer, kind >>
+
+M3b == /\ pc = "M3b"
+       /\ depth' = depth + 1
+       /\ pc' = "M4"
+       /\ UNCHANGED << inp, toks, i, errs, nilp, loose, eaten, stack, closer, 
+                       kind >>
 
 M4 == /\ pc = "M4"
       /\ IF Tok(i) = "SLOT"
@@ -832,45 +905,51 @@ M4 == /\ pc = "M4"
                             /\ UNCHANGED << i, errs, stack >>
             ELSE /\ pc' = "M9"
                  /\ UNCHANGED << i, errs, stack >>
-      /\ UNCHANGED << inp, toks, nilp, closer, kind >>
+      /\ UNCHANGED << inp, toks, nilp, loose, eaten, depth, closer, kind >>
 
 M6 == /\ pc = "M6"
       /\ stack' = << [ procedure |->  "parseBlock",
                        pc        |->  "M7" ] >>
                    \o stack
       /\ pc' = "B0"
-      /\ UNCHANGED << inp, toks, i, errs, nilp, closer, kind >>
+      /\ UNCHANGED << inp, toks, i, errs, nilp, loose, eaten, depth, closer, 
+                      kind >>
 
 M7 == /\ pc = "M7"
       /\ i' = i + 2
       /\ pc' = "M8"
-      /\ UNCHANGED << inp, toks, errs, nilp, stack, closer, kind >>
+      /\ UNCHANGED << inp, toks, errs, nilp, loose, eaten, depth, stack, 
+                      closer, kind >>
 
 M8 == /\ pc = "M8"
-      /\ IF Tok(i) = "HTML"
+      /\ IF Tok(i) \in {"HTML", "WS"}
             THEN /\ i' = i + 1
                  /\ pc' = "M8"
             ELSE /\ pc' = "M4"
                  /\ i' = i
-      /\ UNCHANGED << inp, toks, errs, nilp, stack, closer, kind >>
+      /\ UNCHANGED << inp, toks, errs, nilp, loose, eaten, depth, stack, 
+                      closer, kind >>
 
 M5 == /\ pc = "M5"
       /\ i' = i + 2
       /\ pc' = "M6"
-      /\ UNCHANGED << inp, toks, errs, nilp, stack, closer, kind >>
+      /\ UNCHANGED << inp, toks, errs, nilp, loose, eaten, depth, stack, 
+                      closer, kind >>
 
 M9 == /\ pc = "M9"
+      /\ depth' = depth - 1
       /\ pc' = Head(stack).pc
       /\ stack' = Tail(stack)
-      /\ UNCHANGED << inp, toks, i, errs, nilp, closer, kind >>
+      /\ UNCHANGED << inp, toks, i, errs, nilp, loose, eaten, closer, kind >>
 
-parseComponent == M0 \/ M1 \/ M1a \/ M2 \/ M3 \/ M3a \/ M4 \/ M6 \/ M7
-                     \/ M8 \/ M5 \/ M9
+parseComponent == M0 \/ M1 \/ M1a \/ M2 \/ M3 \/ M3a \/ M3b \/ M4 \/ M6
+                     \/ M7 \/ M8 \/ M5 \/ M9
 
 X0 == /\ pc = "X0"
       /\ i' = i + 1
       /\ pc' = "X0a"
-      /\ UNCHANGED << inp, toks, errs, nilp, stack, closer, kind >>
+      /\ UNCHANGED << inp, toks, errs, nilp, loose, eaten, depth, stack, 
+                      closer, kind >>
 
 X0a == /\ pc = "X0a"
        /\ IF Tok(i) = "RBRACES"
@@ -879,7 +958,7 @@ X0a == /\ pc = "X0a"
                   /\ stack' = Tail(stack)
              ELSE /\ pc' = "X0b"
                   /\ UNCHANGED << errs, stack >>
-       /\ UNCHANGED << inp, toks, i, nilp, closer, kind >>
+       /\ UNCHANGED << inp, toks, i, nilp, loose, eaten, depth, closer, kind >>
 
 X0b == /\ pc = "X0b"
        /\ IF Tok(i) = "IDENT" /\ Tok(i + 1) = "ASSIGN"
@@ -887,7 +966,8 @@ X0b == /\ pc = "X0b"
                   /\ pc' = "X0c"
              ELSE /\ pc' = "X1"
                   /\ i' = i
-       /\ UNCHANGED << inp, toks, errs, nilp, stack, closer, kind >>
+       /\ UNCHANGED << inp, toks, errs, nilp, loose, eaten, depth, stack, 
+                       closer, kind >>
 
 X0c == /\ pc = "X0c"
        /\ IF Tok(i) = "RBRACES"
@@ -896,21 +976,23 @@ X0c == /\ pc = "X0c"
                   /\ stack' = Tail(stack)
              ELSE /\ pc' = "X0d"
                   /\ UNCHANGED << errs, stack >>
-       /\ UNCHANGED << inp, toks, i, nilp, closer, kind >>
+       /\ UNCHANGED << inp, toks, i, nilp, loose, eaten, depth, closer, kind >>
 
 X0d == /\ pc = "X0d"
        /\ stack' = << [ procedure |->  "parseExpr",
                         pc        |->  Head(stack).pc ] >>
                     \o Tail(stack)
        /\ pc' = "E0"
-       /\ UNCHANGED << inp, toks, i, errs, nilp, closer, kind >>
+       /\ UNCHANGED << inp, toks, i, errs, nilp, loose, eaten, depth, closer, 
+                       kind >>
 
 X1 == /\ pc = "X1"
       /\ stack' = << [ procedure |->  "parseExpr",
                        pc        |->  "X2" ] >>
                    \o stack
       /\ pc' = "E0"
-      /\ UNCHANGED << inp, toks, i, errs, nilp, closer, kind >>
+      /\ UNCHANGED << inp, toks, i, errs, nilp, loose, eaten, depth, closer, 
+                      kind >>
 
 X2 == /\ pc = "X2"
       /\ IF Tok(i + 1) = "RBRACES"
@@ -918,12 +1000,14 @@ X2 == /\ pc = "X2"
             ELSE /\ TRUE
                  /\ i' = i
       /\ pc' = "X3"
-      /\ UNCHANGED << inp, toks, errs, nilp, stack, closer, kind >>
+      /\ UNCHANGED << inp, toks, errs, nilp, loose, eaten, depth, stack, 
+                      closer, kind >>
 
 X3 == /\ pc = "X3"
       /\ pc' = Head(stack).pc
       /\ stack' = Tail(stack)
-      /\ UNCHANGED << inp, toks, i, errs, nilp, closer, kind >>
+      /\ UNCHANGED << inp, toks, i, errs, nilp, loose, eaten, depth, closer, 
+                      kind >>
 
 parseEmbedded == X0 \/ X0a \/ X0b \/ X0c \/ X0d \/ X1 \/ X2 \/ X3
 
@@ -934,12 +1018,13 @@ F0 == /\ pc = "F0"
                  /\ stack' = Tail(stack)
             ELSE /\ pc' = "F1"
                  /\ UNCHANGED << errs, stack >>
-      /\ UNCHANGED << inp, toks, i, nilp, closer, kind >>
+      /\ UNCHANGED << inp, toks, i, nilp, loose, eaten, depth, closer, kind >>
 
 F1 == /\ pc = "F1"
       /\ i' = i + 1
       /\ pc' = "F1a"
-      /\ UNCHANGED << inp, toks, errs, nilp, stack, closer, kind >>
+      /\ UNCHANGED << inp, toks, errs, nilp, loose, eaten, depth, stack, 
+                      closer, kind >>
 
 F1a == /\ pc = "F1a"
        /\ IF Tok(i + 1) # "SEMI"
@@ -949,7 +1034,8 @@ F1a == /\ pc = "F1a"
                   /\ pc' = "X0"
              ELSE /\ pc' = "F2"
                   /\ stack' = stack
-       /\ UNCHANGED << inp, toks, i, errs, nilp, closer, kind >>
+       /\ UNCHANGED << inp, toks, i, errs, nilp, loose, eaten, depth, closer, 
+                       kind >>
 
 F2 == /\ pc = "F2"
       /\ IF Tok(i + 1) # "SEMI"
@@ -958,12 +1044,13 @@ F2 == /\ pc = "F2"
                  /\ stack' = Tail(stack)
             ELSE /\ pc' = "F3"
                  /\ UNCHANGED << errs, stack >>
-      /\ UNCHANGED << inp, toks, i, nilp, closer, kind >>
+      /\ UNCHANGED << inp, toks, i, nilp, loose, eaten, depth, closer, kind >>
 
 F3 == /\ pc = "F3"
       /\ i' = i + 1
       /\ pc' = "F3a"
-      /\ UNCHANGED << inp, toks, errs, nilp, stack, closer, kind >>
+      /\ UNCHANGED << inp, toks, errs, nilp, loose, eaten, depth, stack, 
+                      closer, kind >>
 
 F3a == /\ pc = "F3a"
        /\ IF Tok(i + 1) # "SEMI"
@@ -974,7 +1061,8 @@ F3a == /\ pc = "F3a"
                   /\ pc' = "E0"
              ELSE /\ pc' = "F4"
                   /\ UNCHANGED << i, stack >>
-       /\ UNCHANGED << inp, toks, errs, nilp, closer, kind >>
+       /\ UNCHANGED << inp, toks, errs, nilp, loose, eaten, depth, closer, 
+                       kind >>
 
 F4 == /\ pc = "F4"
       /\ IF Tok(i + 1) # "SEMI"
@@ -983,12 +1071,13 @@ F4 == /\ pc = "F4"
                  /\ stack' = Tail(stack)
             ELSE /\ pc' = "F5"
                  /\ UNCHANGED << errs, stack >>
-      /\ UNCHANGED << inp, toks, i, nilp, closer, kind >>
+      /\ UNCHANGED << inp, toks, i, nilp, loose, eaten, depth, closer, kind >>
 
 F5 == /\ pc = "F5"
       /\ i' = i + 1
       /\ pc' = "F5a"
-      /\ UNCHANGED << inp, toks, errs, nilp, stack, closer, kind >>
+      /\ UNCHANGED << inp, toks, errs, nilp, loose, eaten, depth, stack, 
+                      closer, kind >>
 
 F5a == /\ pc = "F5a"
        /\ IF Tok(i + 1) # "RPAREN"
@@ -998,7 +1087,8 @@ F5a == /\ pc = "F5a"
                   /\ pc' = "X0"
              ELSE /\ pc' = "F6"
                   /\ stack' = stack
-       /\ UNCHANGED << inp, toks, i, errs, nilp, closer, kind >>
+       /\ UNCHANGED << inp, toks, i, errs, nilp, loose, eaten, depth, closer, 
+                       kind >>
 
 F6 == /\ pc = "F6"
       /\ IF Tok(i + 1) # "RPAREN"
@@ -1007,7 +1097,7 @@ F6 == /\ pc = "F6"
                  /\ stack' = Tail(stack)
             ELSE /\ pc' = "F7"
                  /\ UNCHANGED << errs, stack >>
-      /\ UNCHANGED << inp, toks, i, nilp, closer, kind >>
+      /\ UNCHANGED << inp, toks, i, nilp, loose, eaten, depth, closer, kind >>
 
 F7 == /\ pc = "F7"
       /\ i' = i + 2
@@ -1015,7 +1105,7 @@ F7 == /\ pc = "F7"
                        pc        |->  "F8" ] >>
                    \o stack
       /\ pc' = "B0"
-      /\ UNCHANGED << inp, toks, errs, nilp, closer, kind >>
+      /\ UNCHANGED << inp, toks, errs, nilp, loose, eaten, depth, closer, kind >>
 
 F8 == /\ pc = "F8"
       /\ IF Tok(i + 1) = "ELSE"
@@ -1026,7 +1116,7 @@ F8 == /\ pc = "F8"
                  /\ pc' = "B0"
             ELSE /\ pc' = "F9"
                  /\ UNCHANGED << i, stack >>
-      /\ UNCHANGED << inp, toks, errs, nilp, closer, kind >>
+      /\ UNCHANGED << inp, toks, errs, nilp, loose, eaten, depth, closer, kind >>
 
 F9 == /\ pc = "F9"
       /\ IF Tok(i + 1) = "END"
@@ -1035,12 +1125,14 @@ F9 == /\ pc = "F9"
             ELSE /\ errs' = Append(errs, "expected @end")
                  /\ i' = i
       /\ pc' = "FA"
-      /\ UNCHANGED << inp, toks, nilp, stack, closer, kind >>
+      /\ UNCHANGED << inp, toks, nilp, loose, eaten, depth, stack, closer, 
+                      kind >>
 
 FA == /\ pc = "FA"
       /\ pc' = Head(stack).pc
       /\ stack' = Tail(stack)
-      /\ UNCHANGED << inp, toks, i, errs, nilp, closer, kind >>
+      /\ UNCHANGED << inp, toks, i, errs, nilp, loose, eaten, depth, closer, 
+                      kind >>
 
 parseFor == F0 \/ F1 \/ F1a \/ F2 \/ F3 \/ F3a \/ F4 \/ F5 \/ F5a \/ F6
                \/ F7 \/ F8 \/ F9 \/ FA
@@ -1053,7 +1145,7 @@ D0 == /\ pc = "D0"
                  /\ stack' = Tail(stack)
             ELSE /\ pc' = "D1"
                  /\ UNCHANGED << errs, stack, kind >>
-      /\ UNCHANGED << inp, toks, i, nilp, closer >>
+      /\ UNCHANGED << inp, toks, i, nilp, loose, eaten, depth, closer >>
 
 D1 == /\ pc = "D1"
       /\ IF kind = "dump"
@@ -1074,13 +1166,13 @@ D1 == /\ pc = "D1"
                             /\ pc' = "D2"
                             /\ stack' = stack
                  /\ UNCHANGED closer
-      /\ UNCHANGED << inp, toks, errs, nilp, kind >>
+      /\ UNCHANGED << inp, toks, errs, nilp, loose, eaten, depth, kind >>
 
 D2 == /\ pc = "D2"
       /\ pc' = Head(stack).pc
       /\ kind' = Head(stack).kind
       /\ stack' = Tail(stack)
-      /\ UNCHANGED << inp, toks, i, errs, nilp, closer >>
+      /\ UNCHANGED << inp, toks, i, errs, nilp, loose, eaten, depth, closer >>
 
 parseArgDirective == D0 \/ D1 \/ D2
 
@@ -1090,13 +1182,13 @@ S0 == /\ pc = "S0"
                                   pc        |->  "S1" ] >>
                               \o stack
                  /\ pc' = "X0"
-                 /\ kind' = kind
+                 /\ UNCHANGED << loose, kind >>
             ELSE /\ IF Tok(i) = "FOR"
                        THEN /\ stack' = << [ procedure |->  "parseFor",
                                              pc        |->  "S1" ] >>
                                          \o stack
                             /\ pc' = "F0"
-                            /\ kind' = kind
+                            /\ UNCHANGED << loose, kind >>
                        ELSE /\ IF Tok(i) \in {"BREAK_IF", "CONTINUE_IF"}
                                   THEN /\ /\ kind' = "cond"
                                           /\ stack' = << [ procedure |->  "parseArgDirective",
@@ -1104,6 +1196,7 @@ S0 == /\ pc = "S0"
                                                            kind      |->  kind ] >>
                                                        \o stack
                                        /\ pc' = "D0"
+                                       /\ loose' = loose
                                   ELSE /\ IF Tok(i) \in {"USE", "RESERVE"}
                                              THEN /\ /\ kind' = "name"
                                                      /\ stack' = << [ procedure |->  "parseArgDirective",
@@ -1111,6 +1204,7 @@ S0 == /\ pc = "S0"
                                                                       kind      |->  kind ] >>
                                                                   \o stack
                                                   /\ pc' = "D0"
+                                                  /\ loose' = loose
                                              ELSE /\ IF Tok(i) = "DUMP"
                                                         THEN /\ /\ kind' = "dump"
                                                                 /\ stack' = << [ procedure |->  "parseArgDirective",
@@ -1118,35 +1212,45 @@ S0 == /\ pc = "S0"
                                                                                  kind      |->  kind ] >>
                                                                              \o stack
                                                              /\ pc' = "D0"
+                                                             /\ loose' = loose
                                                         ELSE /\ IF Tok(i) = "IF"
                                                                    THEN /\ stack' = << [ procedure |->  "parseIf",
                                                                                          pc        |->  "S1" ] >>
                                                                                      \o stack
                                                                         /\ pc' = "I0"
+                                                                        /\ loose' = loose
                                                                    ELSE /\ IF Tok(i) = "EACH"
                                                                               THEN /\ stack' = << [ procedure |->  "parseEach",
                                                                                                     pc        |->  "S1" ] >>
                                                                                                 \o stack
                                                                                    /\ pc' = "C0"
+                                                                                   /\ loose' = loose
                                                                               ELSE /\ IF Tok(i) = "INSERT"
                                                                                          THEN /\ stack' = << [ procedure |->  "parseInsert",
                                                                                                                pc        |->  "S1" ] >>
                                                                                                            \o stack
                                                                                               /\ pc' = "N0"
+                                                                                              /\ loose' = loose
                                                                                          ELSE /\ IF Tok(i) = "COMPONENT"
                                                                                                     THEN /\ stack' = << [ procedure |->  "parseComponent",
                                                                                                                           pc        |->  "S1" ] >>
                                                                                                                       \o stack
                                                                                                          /\ pc' = "M0"
-                                                                                                    ELSE /\ pc' = "S1"
+                                                                                                         /\ loose' = loose
+                                                                                                    ELSE /\ IF Tok(i) = "SLOT" /\ depth = 0
+                                                                                                               THEN /\ loose' = loose + 1
+                                                                                                               ELSE /\ TRUE
+                                                                                                                    /\ loose' = loose
+                                                                                                         /\ pc' = "S1"
                                                                                                          /\ stack' = stack
                                                              /\ kind' = kind
-      /\ UNCHANGED << inp, toks, i, errs, nilp, closer >>
+      /\ UNCHANGED << inp, toks, i, errs, nilp, eaten, depth, closer >>
 
 S1 == /\ pc = "S1"
       /\ pc' = Head(stack).pc
       /\ stack' = Tail(stack)
-      /\ UNCHANGED << inp, toks, i, errs, nilp, closer, kind >>
+      /\ UNCHANGED << inp, toks, i, errs, nilp, loose, eaten, depth, closer, 
+                      kind >>
 
 parseStatement == S0 \/ S1
 
@@ -1163,7 +1267,7 @@ P0 == /\ pc = "P0"
                             /\ errs' = errs
                  /\ pc' = "P2a"
                  /\ stack' = stack
-      /\ UNCHANGED << inp, toks, i, nilp, closer, kind >>
+      /\ UNCHANGED << inp, toks, i, nilp, loose, eaten, depth, closer, kind >>
 
 P1 == /\ pc = "P1"
       /\ IF Tok(i) = "ILLEGAL"
@@ -1172,12 +1276,13 @@ P1 == /\ pc = "P1"
                  /\ pc' = "P3"
             ELSE /\ pc' = "P2"
                  /\ UNCHANGED << errs, nilp >>
-      /\ UNCHANGED << inp, toks, i, stack, closer, kind >>
+      /\ UNCHANGED << inp, toks, i, loose, eaten, depth, stack, closer, kind >>
 
 P2 == /\ pc = "P2"
       /\ i' = i + 1
       /\ pc' = "P0"
-      /\ UNCHANGED << inp, toks, errs, nilp, stack, closer, kind >>
+      /\ UNCHANGED << inp, toks, errs, nilp, loose, eaten, depth, stack, 
+                      closer, kind >>
 
 P2a == /\ pc = "P2a"
        /\ IF errs = <<>> /\ ~DevP2.IllegalSteppedOver /\ (\E k \in 1..Len(toks) : toks[k] = "ILLEGAL")
@@ -1185,12 +1290,14 @@ P2a == /\ pc = "P2a"
              ELSE /\ TRUE
                   /\ errs' = errs
        /\ pc' = "P3"
-       /\ UNCHANGED << inp, toks, i, nilp, stack, closer, kind >>
+       /\ UNCHANGED << inp, toks, i, nilp, loose, eaten, depth, stack, closer, 
+                       kind >>
 
 P3 == /\ pc = "P3"
       /\ TRUE
       /\ pc' = "Done"
-      /\ UNCHANGED << inp, toks, i, errs, nilp, stack, closer, kind >>
+      /\ UNCHANGED << inp, toks, i, errs, nilp, loose, eaten, depth, stack, 
+                      closer, kind >>
 
 (* Allow infinite stuttering to prevent deadlock on termination. *)
 Terminating == pc = "Done" /\ UNCHANGED vars
@@ -1216,6 +1323,9 @@ PrefixRejected == (Finished /\ inp.open) => errs # <<>>
 \* C08: a template containing an illegal character is rejected, wherever the character stands
 HasIllegal == \E k \in 1..Len(toks) : toks[k] = "ILLEGAL"
 IllegalRejected == (Finished /\ HasIllegal) => errs # <<>>
+\* C07 / C05: in an input where every @slot belongs to a component use, none is met as a statement of its own, and no
+\* white space is consumed unless a slot follows it
+SlotsOwned == (Finished /\ inp.owned) => (loose = 0 /\ eaten = 0)
 \* the cursor only moves back for the one-token backUp of an empty block
 CursorSane == i >= 0
 =============================================================================
